@@ -12,7 +12,7 @@ EXPLANATION = (
     "the capacity comparison len > capacity is reached on every path after the insert, and under it the key removed "
     "from the map is the value popped from the front of the list. R3: clear empties both containers; len / load_factor "
     "read the map length and capacity; get looks the same key up in the map. R4: the TranspositionTable wrapper "
-    "delegates each method 1:1 with unchanged arguments. Decided: the structural invariants that keep list and map in "
+    "delegates each method 1:1 with unchanged arguments. R5: new stores the capacity argument itself as the bound. Decided: the structural invariants that keep list and map in "
     "step; not decided: map semantics over operation histories.")
 
 HT = "inkayaku_engine_core::engine::table::HashTable"
@@ -365,9 +365,38 @@ def r4_wrapper(ctx):
                sample={"method": m, "call": show(hcalls[0]) if hcalls else None})
 
 
+def r5_new(ctx):
+    rid = "C18.R5"
+    ctx.rule(rid, "HashTable::new stores the configured capacity unchanged: the bound put compares with is the argument, not a function of it", floor=1)
+    f = ctx.fn(rid, HTM + "new")
+    try:
+        ps = returning_paths(f)
+    except NotLoopFree:
+        ps = []
+    if not ps:
+        ctx.lost(rid, "new: no loop-free returning path")
+        return
+    bad = None
+    for pe in ps:
+        t = pe.ret()
+        if not (t and t[0] == "agg" and t[1] == "adt" and t[2].startswith(HT)):
+            ctx.lost(rid, "new does not return a HashTable aggregate: %s" % show(t))
+            return
+        ops = t[3]
+        # operands that depend on the capacity argument: the argument itself (the stored bound), or a container
+        # constructor that pre-allocates with it (VecDeque::with_capacity(capacity) changes no behaviour)
+        dep = [o for o in ops if any(x == ("param", 1) for x in leaves(o))]
+        ident = [o for o in dep if o == ("param", 1)]
+        other = [o for o in dep if o != ("param", 1) and not (o[0] == "call" and ("VecDeque" in o[1] or "HashMap" in o[1]))]
+        if len(ident) != 1 or other:
+            bad = "new builds %s: the capacity field must be the argument itself" % show(t)
+    ctx.ob(rid, "capacity-stored-unchanged", bad is None, bad or "", ctx.where(f), sample={"paths": len(ps)})
+
+
 def run(ctx):
     r1_confinement(ctx)
     r2_put(ctx)
     r3_others(ctx)
     r4_wrapper(ctx)
+    r5_new(ctx)
     ctx.assumptions += ["std's HashMap and VecDeque behave as documented", "keys are Copy (the same key value goes to the map and the list)"]
